@@ -15,8 +15,9 @@ CONSTANTS
  WithMemMerge = FALSE
  MaxMergeInputs = 2
  AsyncRelease = FALSE
+  WithMergeFail = TRUE
  MaxOpens = 2
 CONSTRAINT Bound
-INVARIANTS RootIsReplay UniqueLive HeldAreReplays EveryBoltIsAState Durable NewestLoads BoltFilesOnDisk RootFilesOnDisk NoOrphansWhenQuiescent RollbackOK
+INVARIANTS RootIsReplay UniqueLive HeldAreReplays EveryBoltIsAState Durable NewestLoads BoltFilesOnDisk RootFilesOnDisk RootFilesProtected NoOrphansWhenQuiescent RollbackOK
 PROPERTIES LayoutStutters ReaderStable
 CHECK_DEADLOCK FALSE
